@@ -152,3 +152,43 @@ func (e *PathEval) AlwaysNegative(v ssa.Value) bool {
 	}
 	return true
 }
+
+// Leaves returns the non-phi values v may take on live paths.
+func (e *PathEval) Leaves(v ssa.Value) []ssa.Value {
+	seen := map[ssa.Value]bool{}
+	var out []ssa.Value
+	var ev func(v ssa.Value)
+	ev = func(v ssa.Value) {
+		if seen[v] {
+			return
+		}
+		seen[v] = true
+		x, ok := v.(*ssa.Phi)
+		if !ok {
+			out = append(out, v)
+			return
+		}
+		b := x.Block()
+		for i, edge := range x.Edges {
+			pred := b.Preds[i]
+			term := pred.Instrs[len(pred.Instrs)-1]
+			if e.Reached != nil && !e.Reached[term] {
+				continue
+			}
+			if e.Cut != nil {
+				live := false
+				for k, s := range pred.Succs {
+					if s == b && !e.Cut(pred, k) {
+						live = true
+					}
+				}
+				if !live {
+					continue
+				}
+			}
+			ev(edge)
+		}
+	}
+	ev(v)
+	return out
+}
